@@ -9,7 +9,10 @@ Import ListNotations.
 Definition id := nat.
 
 (* ---- universe: static facts about each identifier ----------------------- *)
-Inductive kindc := KNs | KCrd | KPlain.
+(* KApiSvc: an apiregistration.k8s.io APIService (cluster-scoped, a built-in kind: no CRD, no namespace
+   object).  The only kind ApplyTask treats specially: when server-side apply is requested and the apply
+   PATCH dies with an HTTP/2 stream error, the task applies the object client-side instead. *)
+Inductive kindc := KNs | KCrd | KPlain | KApiSvc.
 Record uinfo := mkUF {
   u_kind : kindc;
   u_nsobj : option id;   (* id of the Namespace object named like this object's namespace, if in the universe *)
@@ -84,6 +87,8 @@ Inductive faddr :=
 | FNsCreate
 | FGet (i : id) (n : nat)   (* n-th GET of object i *)
 | FApply (i : id)           (* the POST/PATCH of the apply path for i *)
+| FStream (i : id) (n : nat)(* the n-th server-side-apply PATCH of i is answered with an HTTP/2 stream error
+                               ("stream error: stream ID ..."); takes precedence over FApply i *)
 | FUpdate (i : id)          (* annotation-removal update *)
 | FDelete (i : id).
 
